@@ -288,10 +288,10 @@ Proof.
     rewrite (proj1 (cparents_f_keeps p _)), (proj1 (punlock_f_keeps p y)) in P. now rewrite P.
 Qed.
 
-Theorem lock_adds_no_entry : forall s p n', In n' (nodes (fst (lock_ s p))) -> exists n, In n (nodes s) /\ n_path n' = n_path n /\ n_cache n' = n_cache n.
+Theorem lock_adds_no_entry : forall fx s p n', In n' (nodes (fst (lock_ fx s p))) -> exists n, In n (nodes s) /\ n_path n' = n_path n /\ n_cache n' = n_cache n.
 Proof.
-  intros s p n' H. unfold lock_ in H. destruct (find_node s p) as [n0|]; [|now exists n'].
-  destruct (node_locked s n0); cbn in H; [now exists n'|].
+  intros fx s p n' H. unfold lock_ in H. destruct (find_node s p) as [n0|]; [|now exists n'].
+  destruct (if fix_lockflag fx then flag_locked n0 else node_locked s n0); cbn in H; [now exists n'|].
   apply in_map_nodes in H. destruct H as [n [Hn ->]]. exists n. split; [assumption|].
   destruct (is_prefix p (n_path n)); split; reflexivity.
 Qed.
